@@ -6,6 +6,7 @@
   theorem; the width-pair oracle checks the implementation on every well-formed case
   (level "other", partial: the search heuristics are named as the gap).
 -/
+import PasfmtModel.Generated.Inventory
 import PasfmtModel.Model.Bytes
 
 namespace Pasfmt.C11
@@ -157,5 +158,15 @@ theorem overflow_zero_iff_fits (w : Nat) (ends : List Nat) :
 /-- if every line fits at some limit it fits at any larger one (on renderings) -/
 theorem lines_fit_mono (w1 w2 : Nat) (h : w1 ≤ w2) (ends : List Nat) (hf : ∀ e ∈ ends, e ≤ w1) :
     ∀ e ∈ ends, e ≤ w2 := fun e he => Nat.le_trans (hf e he) h
+
+/-- **The width limit is read only as a limit.**  The translator lists every place of the wrapper's
+    source (`optimising_line_formatter/*.rs`) that reads `max_line_length`, with the number of reads:
+    the "last line is too long" test of `find_optimal_solution` (comparison and its trace message) and
+    the overflow penalty of `get_decision_penalty` (comparison and excess).  Both enter the search only
+    through "does the line exceed the limit, and by how much" — the shape the theorems above assume.
+    A new read anywhere else (a threshold such as `max_line_length / 2`, a style chosen by width)
+    changes this list and breaks this obligation: it has to be reviewed against `argmin_shrink`. -/
+theorem width_is_read_only_as_a_limit :
+    widthReads = ["mod.rs:find_optimal_solution#2", "mod.rs:get_decision_penalty#2"] := rfl
 
 end Pasfmt.C11
